@@ -148,6 +148,11 @@ def get_all_rules(rules_path=None, match_mode='first_match'):
     """
     global _cached_engine, _cached_engine_path
 
+    # A cached engine belongs to the rules file loaded earlier; forget it so that a
+    # CSV file, a missing path or a failed load does not keep classifying with it.
+    _cached_engine = None
+    _cached_engine_path = None
+
     user_rules_with_source = []
     if rules_path:
         # Check if it's the new .rules format
